@@ -98,6 +98,8 @@ class Run:
         self.client_parts: Dict[int, str] = {}
         self.build_error: Optional[BaseException] = None
         self.ops_done: Dict[int, int] = {}
+        self.entered_clients: set = set()
+        self.rendezvous_done: set = set()
         self.clients_finished: Dict[int, bool] = {}
         self.ref_tables: Dict[str, Any] = {}
 
@@ -252,6 +254,16 @@ class Run:
         inst = self.op_inst.get(op) if op is not None else None
         path = self.path_of(inst, nid)
         sim.ev("body", tok, nid, fname, freeze(args), freeze(kwargs), me.name)
+        if self.scn.get("rendezvous") and op is not None and inst is not None:
+            # the first node body of each client's call waits until a peer client's call has entered a node body as well
+            # (two concurrent runs of one DAG must be able to make progress independently of each other)
+            c_me = op[0]
+            self.entered_clients.add(c_me)
+            if c_me not in self.rendezvous_done:
+                self.rendezvous_done.add(c_me)
+                self.rt.probe("rendezvous_waits")
+                sim.yield_("body-rendezvous", info=("finish", tok, nid), pred=lambda: any(
+                    c != c_me for c in self.entered_clients) or all(self.clients_finished.get(c) for c in self.client_parts if c != c_me))
         flt = self._fault(op, path, fname)
         if flt is not None and flt["when"] == "early":
             self._raise(flt, op, path, nid)
